@@ -916,13 +916,17 @@ def same_failure(a: dict, b: dict) -> bool:
     return (not b["ok"]) and a["phase"] == b["phase"] and a["exc"] == b["exc"] and a["frame"] == b["frame"] and a["parser_errors"] == b["parser_errors"]
 
 
-def minimise(sql, dialect, level, write, verdict, max_runs=250):
+def minimise(sql, dialect, level, write, verdict, max_runs=250, max_s=12.0):
     """delta-debug over token texts (then characters for short inputs) keeping the same failure signature"""
     runs = 0
+    t_end = time.time() + max_s
 
     def bad(s):
         nonlocal runs
         runs += 1
+        if time.time() > t_end:
+            runs = max_runs
+            return False
         return same_failure(verdict, run_pipeline(s, dialect, level, write))
 
     toks = split_tokens(sql)
@@ -1003,6 +1007,8 @@ def consider(chk: Check, sql, dialect, level, write, verdict, tag="search"):
     msql = sql
     if known_prefix(chk, prefix, ctx):
         key = prefix + f"|{dialect or 'base'}|unminimised"
+    elif len(chk.violations) >= 4 or any(v["key"].startswith(prefix + "|") for v in chk.violations):
+        key = prefix + f"|{dialect or 'base'}|unminimised"   # enough minimised replays already; keep the run short
     else:
         msql = minimise(sql, dialect, level, write, verdict, max_runs=(3 if verdict["exc"] == "Timeout" else 250))
         v2 = run_pipeline(msql, dialect, level, write)
@@ -1132,16 +1138,16 @@ def run_real_prog(prog, toks_ids, level, fuel):
     psr._advance_chunk()
     MON.install()
     MON.reset()
-    MON.p_cap = 200000
+    MON.p_cap = 20000
     try:
         try:
-            v = interp(psr, prog, fuel, TT)
+            v = with_watchdog(lambda: interp(psr, prog, fuel, TT), 5.0)
             out = "ret none" if v is None else ("ret truthy" if v else "ret falsy")
         except errors.ParseError:
             out = "raised"
         except Diverged:
             out = "diverged"
-        except StepBudget:
+        except (StepBudget, _Watchdog):
             out = "diverged"
         except Exception as e:  # noqa
             out = "internal"
@@ -1227,10 +1233,14 @@ def correspond_activations(chk: Check) -> list:
     n_acts = {"try": 0, "csv": 0, "wrapped": 0}
     scan_lines, scan_expect, scan_meta = [], [], []
     rewinds_seen = {}
+    t_start = time.time()
     for ii in range(n_inputs):
         d = rng.choice(dialects)
         lvl = rng.choice(LEVELS)
         kind, sql = gen_input(rng, gen, dialect_keywords(d))
+        if time.time() - t_start > chk.pick(45, 600) or chk.corr_disagreements >= 5:
+            chk.note(f"activation monitoring stopped early after {ii} inputs")
+            break
         if ii % 9 == 0:
             sql = rng.choice(["SELECT 12abc, 1e, 3x FROM t", "SELECT $tag$ body $tag$, $1", "SELECT $a b$ x", "SELECT $9$", "SELECT $x", "SELECT 1_0f + 2d",
                               "SELECT $$ a $$ || $t$b$t$", "$", "$a", "$a$", "1a", "1a 2b$c$", "SELECT 0xfg, 0b12, 1.e5x"]) + (" " + sql if rng.random() < 0.5 else "")
